@@ -8,7 +8,7 @@ NUMS = ["0", "1", "2", "3", "5", "10", "12", "", "7"]
 TEXTS = ["x", "y", "", "z z", "X", "yes", "10"]
 
 
-def gen_rows(rng, maxn=8, blank_p=0.15, trailing_blank_p=0.2, header=True):
+def gen_rows(rng, maxn=8, blank_p=0.15, trailing_blank_p=0.2, header=True, extra=False):
     rows = []
     if header:
         rows.append(["id", "a", "b"])
@@ -18,7 +18,10 @@ def gen_rows(rng, maxn=8, blank_p=0.15, trailing_blank_p=0.2, header=True):
             rows.append([])
         else:
             r = [f"r{len(rows)}", rng.choice(NUMS), rng.choice(TEXTS)]
-            rows.append(r[: rng.choice([1, 2, 3, 3, 3, 3])])
+            r = r[: rng.choice([1, 2, 3, 3, 3, 3])]
+            if extra and len(r) == 3 and rng.random() < 0.25:
+                r += [f"x{k}" for k in range(rng.choice([1, 2]))]      # a record with more values than the header row has names
+            rows.append(r)
     if rng.random() < trailing_blank_p:
         rows.append([])
     return rows
